@@ -124,8 +124,12 @@ def build(seed, tier):
             ops.append({'op': 'verify', 'plant': ro.random() < 0.5, 'at': ro.randint(0, 5)})
         elif c < 0.62:
             ops.append({'op': 'tifa', 'plant': ro.random() < 0.6, 'at': ro.randint(0, 5), 'flavour': ro.randint(0, 2)})
-        elif c < 0.65:
+        elif c < 0.645:
             ops.append({'op': 'check_exists', 'n': ro.randint(0, 8)})
+        elif c < 0.65:
+            # the script separates again (e.g. two graders' snippets glued together): sections start over
+            ops.append({'op': 'separate_again'})
+            k = 0
         elif c < 0.665:
             # run() of the active code with a syntax error in it, without a verify() before (the compiler reports it)
             ops.append({'op': 'run_syntax', 'at': ro.randint(0, 5)})
@@ -262,6 +266,8 @@ def execute(spec):
             o = {'op': kind}
             if kind == 'next_section':
                 guarded(o, next_section)
+            elif kind == 'separate_again':
+                guarded(o, lambda: separate_into_sections(**kw))
             elif kind in ('verify', 'tifa'):
                 code = sub.main_code
                 lines = code.split('\n')
@@ -423,6 +429,17 @@ def judge(spec, res):
             viol('%s-raised' % kind, '%s raised %s(%s) at %s' % (kind, o['raised']['cls'], o['raised']['str'], o['raised']['where']),
                  '/%s/as=%s' % (where, o['raised']['cls']))
             return vs
+        if kind == 'separate_again':
+            if stopped:
+                continue
+            k = 0
+            past_end = False
+            past_end_whole = False
+            if o['main_code'] != chunk(0):
+                viol('section-text', 'after separating again the prologue is presented as %r, chunk 0 is %r' % (
+                    o['main_code'][:40], chunk(0)[:40]), '/section=0/separated-again')
+                return vs
+            continue
         if kind == 'next_section':
             if stopped:
                 continue
